@@ -33,6 +33,10 @@ var cmDSeqs = []uint64{1, 12, 256, 257, 65536, 1 << 32, 1<<64 - 1, 2}
 var cmAttrKeys = []string{"region", "tier", "gpu1", "host"}
 var cmAttrVals = []string{"aa", "bb"}
 
+// attestations additionally use keys that differ from others only in capitalisation (all are
+// valid attribute names; the audit module does not restrict keys at all)
+var cmAuditKeys = []string{"region", "tier", "gpu1", "host", "Region", "REGION", "Tier"}
+
 type cmBuilt struct {
 	label  string
 	msg    sdk.Msg
@@ -42,8 +46,12 @@ type cmBuilt struct {
 func cmCoin(n int64) sdk.Coin { return sdk.NewInt64Coin(cmDenom, n) }
 
 func (m *chainMachine) genAttrs(t *rapid.T, name string, min int) akashtypes.Attributes {
-	n := rapid.IntRange(min, 3).Draw(t, name+"N")
-	keys := rapid.Permutation(cmAttrKeys).Draw(t, name+"Keys")[:n]
+	return m.genAttrsFrom(t, name, min, 3, cmAttrKeys)
+}
+
+func (m *chainMachine) genAttrsFrom(t *rapid.T, name string, min, max int, from []string) akashtypes.Attributes {
+	n := rapid.IntRange(min, max).Draw(t, name+"N")
+	keys := rapid.Permutation(from).Draw(t, name+"Keys")[:n]
 	var out akashtypes.Attributes
 	for _, k := range sortedStrings(keys) {
 		out = append(out, akashtypes.Attribute{Key: k, Value: rapid.SampledFrom(cmAttrVals).Draw(t, name+"V")})
@@ -127,11 +135,11 @@ func (m *chainMachine) bAudit(t *rapid.T) (cmBuilt, bool) {
 				keys = []string{"region"}
 			}
 		default:
-			keys = []string{rapid.SampledFrom(cmAttrKeys).Draw(t, "delKey")}
+			keys = []string{rapid.SampledFrom(cmAuditKeys).Draw(t, "delKey")}
 		}
 		return cmBuilt{fmt.Sprintf("DeleteProviderAttributes(%s,%s,%v)", a.name, p.name, keys), &atypes.MsgDeleteProviderAttributes{Owner: p.bech, Auditor: a.bech, Keys: keys}, a}, true
 	}
-	attrs := m.genAttrs(t, "aattr", 1)
+	attrs := m.genAttrsFrom(t, "aattr", 1, 5, cmAuditKeys)
 	if existing != nil && rapid.IntRange(0, 5).Draw(t, "emptyResign") == 0 {
 		attrs = nil // re-sign with an empty attribute list (accepted by ValidateBasic)
 	}
@@ -247,8 +255,13 @@ func (m *chainMachine) bDeployDeposit(t *rapid.T) (cmBuilt, bool) {
 		return cmBuilt{}, false
 	}
 	amt := int64(rapid.IntRange(1, 40).Draw(t, "amount")) * maxI64(1, m.params.depMin/100)
-	return cmBuilt{fmt.Sprintf("DepositDeployment(%s/%d,%d)", m.byAddr[d.DeploymentID.Owner].name, d.DeploymentID.DSeq, amt),
-		&dtypes.MsgDepositDeployment{ID: d.DeploymentID, Amount: cmCoin(amt)}, m.byAddr[d.DeploymentID.Owner]}, true
+	coin := cmCoin(amt)
+	if rapid.IntRange(0, 5).Draw(t, "foreignDenom") == 0 {
+		// a top-up in a denomination the depositor holds but the escrow account is not kept in
+		coin = sdk.NewInt64Coin(cmDenom2, amt)
+	}
+	return cmBuilt{fmt.Sprintf("DepositDeployment(%s/%d,%s)", m.byAddr[d.DeploymentID.Owner].name, d.DeploymentID.DSeq, coin),
+		&dtypes.MsgDepositDeployment{ID: d.DeploymentID, Amount: coin}, m.byAddr[d.DeploymentID.Owner]}, true
 }
 
 func (m *chainMachine) bDeployUpdate(t *rapid.T) (cmBuilt, bool) {
